@@ -52,7 +52,7 @@ class InjectedUserError(ValueError):
 
 
 COMMIT_SITES = {"os.replace", "os.rename", "Path.replace", "Path.rename", "shutil.move"}
-WRITE_SITES = {"file.write", "Path.write_text", "Path.write_bytes"}
+WRITE_SITES = {"file.write", "Path.write_text", "Path.write_bytes", "os.sendfile"}
 COMPUTE_SITES = {"parts.evolve", "parts.match", "operators.join", "operators.retrieve", "recipes.create"}
 
 
@@ -148,6 +148,8 @@ def _wrap(owner, name, site, detail_fn=None):
         elif mode == "partial" and site in ("Path.write_text", "Path.write_bytes"):
             data = a[1]
             orig(a[0], data[: len(data) // 2], *a[2:], **kw)
+        elif mode == "partial" and site == "os.sendfile" and len(a) >= 4:
+            orig(a[0], a[1], a[2], max(1, int(a[3]) // 2))
         raise fp.exc(site, fault)
 
     wrapper.__name__ = getattr(orig, "__name__", name)
@@ -241,6 +243,8 @@ def install(srcroot):
         _wrap(tempfile, name, f"tempfile.{name}")
     for name in ("replace", "rename", "remove"):
         _wrap(os, name, f"os.{name}", first)
+    if hasattr(os, "sendfile"):  # the data path of shutil.copyfile on Linux
+        _wrap(os, "sendfile", "os.sendfile")
 
     from eko.runner import operators, parts, recipes
 
